@@ -671,6 +671,61 @@ fn extras(report: &Report, cli: &Cli, global: &GlobalContext<ArCurve>) {
             Ok(())
         });
     }
+    // ---- the identity provider supports more revokers than the holder chose ----------------------
+    // request under the chosen subset; credential created and verified under contexts that list all
+    // supported revokers (what a wallet and the chain have): accepted, shares for exactly the chosen
+    // ones, every threshold-many of them reveal idCredPub
+    {
+        let s5 = setup(cli.seed + 9, 5, global);
+        let all_ids: Vec<ArIdentity> = s5.ars.keys().copied().collect();
+        for (chosen_ix, thr, v1, wallet_superset) in [(vec![0usize, 2, 3], 2u8, true, true), (vec![1], 1, true, true), (vec![0, 1, 2, 3, 4], 3, true, true), (vec![0, 2, 3], 3, false, true), (vec![1, 4], 2, false, true), (vec![0, 2, 3], 2, true, false)] {
+            let chosen: BTreeMap<ArIdentity, ArInfo<ArCurve>> = chosen_ix.iter().map(|i| (all_ids[*i], s5.ars[&all_ids[*i]].clone())).collect();
+            let w = json!({"superset_context": {"supported_revokers": 5, "chosen": chosen_ix, "threshold": thr, "identity_object_version": if v1 { 1 } else { 0 }, "wallet_context_lists_all": wallet_superset}});
+            case(report, w, || {
+                let ctx_req = IpContext::new(&s5.ip.public_ip_info, &chosen, &s5.global);
+                let ctx_all = IpContext::new(&s5.ip.public_ip_info, &s5.ars, &s5.global);
+                let threshold = Threshold::try_from(thr).unwrap();
+                let alist = &attribute_lists()[0].1;
+                let id_use = test_create_id_use_data(&mut rng(cli.seed, 8950));
+                let cd = cred_data(cli.seed + 50, 2, 1);
+                let initial = InitialAccountData { keys: cd.keys.clone(), threshold: cd.threshold };
+                let wallet_ctx = if wallet_superset { ctx_all } else { ctx_req };
+                let noe: Either<TransactionTime, AccountAddress> = Left(EXPIRY);
+                let cdi: Cdi = if v1 {
+                    let (pio, _) = generate_pio_v1_with_rng(&ctx_req, threshold, &id_use, &mut rng(cli.seed, 8951)).ok_or(("request-not-producible".to_string(), json!({})))?;
+                    // the provider validates and signs under everything it supports
+                    let sig = verify_credentials_v1(&pio, ctx_all, alist, &s5.ip.ip_secret_key).map_err(|e| ("valid-identity-request-rejected".to_string(), json!(format!("{e:?}"))))?;
+                    let ido = IdentityObjectV1 { pre_identity_object: pio, alist: alist.clone(), signature: sig };
+                    create_credential(wallet_ctx, &ido, &id_use, 1, policy_of(alist, &[]), &cd, &SystemAttributeRandomness {}, &noe).map_err(|e| ("valid-credential-not-producible".to_string(), json!(format!("{e:#}"))))?.0
+                } else {
+                    let (pio, _) = generate_pio(&ctx_req, threshold, &id_use, &initial).ok_or(("request-not-producible".to_string(), json!({})))?;
+                    let (sig, _) = verify_credentials(&pio, ctx_all, alist, EXPIRY, &s5.ip.ip_secret_key, &s5.ip.ip_cdi_secret_key).map_err(|e| ("valid-identity-request-rejected".to_string(), json!(format!("{e:?}"))))?;
+                    let ido = IdentityObject { pre_identity_object: pio, alist: alist.clone(), signature: sig };
+                    create_credential(wallet_ctx, &ido, &id_use, 1, policy_of(alist, &[]), &cd, &SystemAttributeRandomness {}, &noe).map_err(|e| ("valid-credential-not-producible".to_string(), json!(format!("{e:#}"))))?.0
+                };
+                report.trace(1);
+                if verify_cdi(&s5.global, &s5.ip.public_ip_info, &s5.ars, &cdi, &noe).is_err() {
+                    return fail("valid-credential-rejected", json!({"shares_for": cdi.values.ar_data.keys().map(|k| format!("{k}")).collect::<Vec<_>>()}));
+                }
+                if cdi.values.ar_data.keys().copied().collect::<Vec<_>>() != chosen.keys().copied().collect::<Vec<_>>() {
+                    return fail("credential-carries-shares-for-other-revokers", json!({}));
+                }
+                // every threshold-many chosen revokers reveal idCredPub
+                let id_cred_pub = s5.global.on_chain_commitment_key.g.mul_by_scalar(&id_use.aci.cred_holder_info.id_cred.id_cred_sec);
+                for subset in subsets(chosen_ix.len()) {
+                    if subset.len() != thr as usize {
+                        continue;
+                    }
+                    let shares: Vec<(ArIdentity, Message<ArCurve>)> = subset.iter().map(|i| { let id = all_ids[chosen_ix[*i]]; (id, s5.ar_keys[&id].decrypt(&cdi.values.ar_data[&id].enc_id_cred_pub_share)) }).collect();
+                    report.trace(1);
+                    if reveal_id_cred_pub(&shares) != id_cred_pub {
+                        return fail("threshold-revokers-do-not-reveal-identity", json!({"subset": subset}));
+                    }
+                }
+                Ok(())
+            });
+        }
+    }
     // ---- account-ownership proofs: the threshold policy over the credential's keys --------------
     let account = AccountAddress([7u8; 32]);
     for nkeys in 1..=3u8 {
